@@ -31,6 +31,9 @@ int splinetable_init(struct splinetable* table);
 void splinetable_free(struct splinetable* table);
 
 /// Read a table from a FITS file on disk
+/// \pre \p table has been zero-initialized, initialized with splinetable_init(),
+///      or used before: a table it already holds is destroyed first, so
+///      table->data must not be an indeterminate value.
 int readsplinefitstable(const char* path, struct splinetable* table);
 
 /// Write the table to a FITS file on disk
@@ -97,7 +100,9 @@ const float* splinetable_coefficients(const struct splinetable* table);
 ///
 /// \param[in] x coordinates
 /// \param[out] centers indices of central splines
-/// \returns 0 if \p is within the partial support of the spline
+/// \returns non-zero if \p x is within the partial support of the spline and
+///          \p centers has been filled, 0 otherwise (the value of
+///          photospline::splinetable::searchcenters)
 int tablesearchcenters(const struct splinetable* table, const double* x,
                        int* centers);
 
